@@ -363,6 +363,98 @@ theorem advanceTo_spec {s : Store} (hp : PriorsOK s) {cut target : Nat} {heads :
   have := ht x hx
   omega
 
+/-! ## successive `advance_to` calls (the BFS is advanced lazily by `should_continue`) -/
+
+/-- the BFS has been advanced to level `m`: everything still queued is below `m`, everything
+popped is at or above it -/
+structure Adv (s : Store) (cut : Nat) (heads : List Loc) (m : Nat) (b : Bfs) : Prop where
+  inv : J s cut heads b
+  queued : ∀ a ∈ b.q.unc, a.mc < m
+  poppedGe : ∀ p ∈ b.popped, m ≤ p.mc
+
+/-- the first call -/
+theorem advanceTo_init_adv {s : Store} (hp : PriorsOK s) {cut t : Nat} {heads : List Loc}
+    (hv : ∀ h ∈ heads, s.valid h = true) {n : Nat} {b : Bfs}
+    (h : advanceTo s cut t n (Bfs.init heads) = .ok b) : Adv s cut heads t b := by
+  obtain ⟨h1, h2, h3⟩ := advanceTo_J hp n _ b (init_J s cut heads hv) (by simp [Bfs.init]) h
+  exact ⟨h1, h2, h3⟩
+
+/-- a call with a lower target advances the level -/
+theorem advanceTo_adv_lower {s : Store} (hp : PriorsOK s) {cut m t : Nat} {heads : List Loc} {b b' : Bfs}
+    (ha : Adv s cut heads m b) (htm : t ≤ m) {n : Nat} (h : advanceTo s cut t n b = .ok b') :
+    Adv s cut heads t b' := by
+  obtain ⟨h1, h2, h3⟩ := advanceTo_J hp n b b' ha.inv (fun p hp' => by have := ha.poppedGe p hp'; omega) h
+  exact ⟨h1, h2, h3⟩
+
+/-- a call with a target at or above the level does nothing -/
+theorem advanceTo_adv_noop {s : Store} {cut m t : Nat} {heads : List Loc} {b : Bfs}
+    (ha : Adv s cut heads m b) (htm : m ≤ t) (n : Nat) : advanceTo s cut t (n + 1) b = .ok b := by
+  rw [advanceTo]
+  cases hpk : b.q.peek with
+  | none => rfl
+  | some top =>
+    simp only
+    have hall : b.q.all = b.q.unc := by simp [Queue.all, ha.inv.cov]
+    have hx : maxLoc b.q.all = some top := by simpa [Queue.peek] using hpk
+    have htop : top ∈ b.q.unc := by rw [← hall]; exact maxLoc_mem hx
+    have := ha.queued top htop
+    have hlt : top.mc < t := by omega
+    simp [hlt]
+
+/-- what a BFS advanced to level `m` has recorded -/
+theorem adv_spec {s : Store} (hp : PriorsOK s) {cut m : Nat} {heads : List Loc} {b : Bfs}
+    (ha : Adv s cut heads m b) :
+    b.popped.Pairwise (fun p p' => Lt p p') ∧
+    (∀ z, z ∈ b.popped ↔ Reg s cut heads z ∧ m ≤ z.mc) ∧
+    (∀ x k, (x, k) ∈ b.entries ↔
+      x ∈ b.popped ∧ cut < x.mc ∧ k = arr s cut heads b.popped x ∧ 2 ≤ k) := by
+  refine ⟨ha.inv.desc, ?_, ha.inv.ent⟩
+  intro z
+  constructor
+  · intro hz; exact ⟨ha.inv.soundP z hz, ha.poppedGe z hz⟩
+  · rintro ⟨hz, hzt⟩
+    rcases ha.inv.compl z hz with h1 | ⟨w, hw, hwz⟩
+    · exact h1
+    · have := hwz.mc_le hp
+      have := ha.queued w hw
+      omega
+
+/-- any sequence of `advance_to` calls -/
+def advanceSeq (s : Store) (cut fuel : Nat) : List Nat → Bfs → Except Err Bfs
+  | [], b => .ok b
+  | t :: ts, b =>
+    match advanceTo s cut t fuel b with
+    | .error e => .error e
+    | .ok b' => advanceSeq s cut fuel ts b'
+
+theorem advanceSeq_adv {s : Store} (hp : PriorsOK s) {cut : Nat} {heads : List Loc} {fuel : Nat} :
+    ∀ (ts : List Nat) (m : Nat) (b b' : Bfs), Adv s cut heads m b → advanceSeq s cut fuel ts b = .ok b' →
+      Adv s cut heads (ts.foldl min m) b' := by
+  intro ts
+  induction ts with
+  | nil => intro m b b' ha h; simp only [advanceSeq, Except.ok.injEq] at h; subst h; simpa using ha
+  | cons t ts ih =>
+    intro m b b' ha h
+    simp only [advanceSeq] at h
+    cases h1 : advanceTo s cut t fuel b with
+    | error e => rw [h1] at h; cases h
+    | ok b1 =>
+      rw [h1] at h
+      simp only [List.foldl_cons]
+      by_cases htm : t ≤ m
+      · have : min m t = t := by omega
+        rw [this]
+        exact ih t b1 b' (advanceTo_adv_lower hp ha htm h1) h
+      · have hmin : min m t = m := by omega
+        rw [hmin]
+        cases fuel with
+        | zero => simp [advanceTo] at h1
+        | succ n =>
+          rw [advanceTo_adv_noop ha (by omega) n] at h1
+          simp only [Except.ok.injEq] at h1
+          subst h1
+          exact ih m b b' ha h
+
 /-- `advance_to` never takes an error branch: no missing segment, no `bug`, and
 `allLocs.length + 1` iterations suffice (every iteration pops a different command location) -/
 theorem advanceTo_total {s : Store} (hp : PriorsOK s) {cut target : Nat} {heads : List Loc} :
